@@ -24,7 +24,7 @@ RULE = ('Generated ledgers (G1/G2). Pairs: (i) the same text parsed twice in eac
         'perturbed field is not the first field of its class, or a pair from (iv).')
 ASSUMPTIONS = ['indent_by (a formatting preference that equality also compares) is never varied', 'a perturbation that leaves text and ownership the same (e.g. replacing a child by an equal node) asserts nothing']
 SHRINK_LISTS = ('ops', 'dirs')
-REQUIRED_CLASSES = ('pair:twice', 'pair:copy', 'pert:tok', 'pert:opt', 'pert:list', 'pert:ownership', 'pair:same-text-tokens', 'pair:cross-type')
+REQUIRED_CLASSES = ('pair:twice', 'pair:copy', 'pert:tok', 'pert:opt', 'pert:list', 'pert:ownership', 'pair:same-text-tokens', 'pair:cross-type', 'pair:same-span-different-type')
 
 
 def sym(a: Any, b: Any) -> Optional[bool]:
@@ -122,6 +122,23 @@ def run_case(case: dict) -> Result:
                 return res.bad('asymmetric:cross-type', f'{n1} vs {n2}: == is not symmetric')
             if s and O.print_text(a) != O.print_text(b):
                 return res.bad(f'equal-cross-type:{n1}:{n2}', f'{n1} {O.print_text(a)!r} == {n2} {O.print_text(b)!r}')
+    # a model and a descendant covering exactly the same tokens (NumberExpr / NumberAddExpr, CostSpec / UnitCost, ...) have different types
+    order = O.Order(root.token_store)
+    for m, _d in O.walk(root, order):
+        if not isinstance(m, base.RawTreeModel):
+            continue
+        for c in O.raw_children(m):
+            if isinstance(c, base.RawTreeModel) and not isinstance(c, O.Repeated) and type(c) is not type(m):
+                try:
+                    same_span = c.first_token is m.first_token and c.last_token is m.last_token
+                except Exception:  # noqa: BLE001
+                    same_span = False
+                if same_span:
+                    classes.add('pair:same-span-different-type')
+                    s2 = sym(m, c)
+                    if s2 is not False:
+                        return res.bad(f'equal-different-type:{type(m).__name__}:{type(c).__name__}',
+                                       f'{type(m).__name__} {O.print_text(m)!r} == its {type(c).__name__} child covering the same tokens (== gives {s2})')
     # perturb the copy
     pert = case.get('pert')
     if not pert:
